@@ -215,7 +215,7 @@ func (a *Asm) Run(entry string, w *World) Outcome {
 			if !need(2) {
 				return out
 			}
-			x, y := w.Var(l.Args[0], epoch), Val(l.Args[1])
+			x, y := w.Var(l.Args[0], epoch), w.CompareOperand(l.Args[1], l.Op == "compare_var_to_value", epoch)
 			switch {
 			case x < y:
 				cmp = 0
